@@ -37,7 +37,7 @@ def _vec(a):
     return [float(v) for v in np.asarray(a, dtype=float).reshape(-1)]
 
 
-def run_traced(spec, fault=None, gp_faults=None, predict_faults=None, max_filt_rows=600, want=("call", "filt", "ctl", "hist", "gp")):
+def run_traced(spec, fault=None, gp_faults=None, predict_faults=None, ei_script=None, max_filt_rows=600, want=("call", "filt", "ctl", "hist", "gp")):
     """Execute one run described by `spec`; returns a picklable trace dict."""
     import logging
     logging.disable(logging.CRITICAL)
@@ -56,7 +56,7 @@ def run_traced(spec, fault=None, gp_faults=None, predict_faults=None, max_filt_r
 
     fun, x0, lb, ub, plb, pub, cons_fn, opts, aux = gen.build(spec, fault=fault)
     ev = []
-    tr = {"spec": spec, "fault": fault, "gp_faults": gp_faults, "predict_faults": predict_faults, "events": ev, "error": None, "result": None,
+    tr = {"spec": spec, "fault": fault, "gp_faults": gp_faults, "predict_faults": predict_faults, "ei_script": ei_script, "events": ev, "error": None, "result": None,
           "hdr": None, "final": None, "log": None, "constructed": False}
     state = {"phase": ["pre"], "bads": None, "loop": 0, "gpfit_idx": 0, "cons_calls": []}
 
@@ -236,8 +236,19 @@ def run_traced(spec, fault=None, gp_faults=None, predict_faults=None, max_filt_r
 
     o_ei = bb.BADS._eval_improvement_
 
+    import random as _random
+    ei_rng = _random.Random(ei_script["seed"]) if ei_script else None
+
     def w_ei(self, f_base, f_new, s_base, s_new, q):
         z = o_ei(self, f_base, f_new, s_base, s_new, q)
+        if ei_rng is not None and np.size(f_new) == 1 and np.size(z) == 1:
+            # ORACLE SCRIPTING: the improvement (a function of GP estimates in the models) is replaced by a scripted value, so that the
+            # controller meets outcome sequences natural runs rarely produce (success while stalling, runs of successes, ...)
+            thr = float(np.asarray(getattr(self, "sufficient_improvement", 1.0)).reshape(-1)[0])
+            tol = float(self.options["tol_fun"])
+            kind = ei_rng.choices(["big", "mid", "tiny", "neg"], weights=ei_script.get("weights", [3, 2, 3, 3]))[0]
+            val = {"big": thr * 4 + 1.0, "mid": min(thr, tol) * 0.5, "tiny": tol * 1e-3, "neg": -1.0}[kind]
+            z = np.array([val]) if isinstance(z, np.ndarray) else val
         rec = {"f_base": _f(f_base), "f_new": _f(f_new), "s_base": _f(s_base), "s_new": _f(s_new), "z": _f(z),
                "phase": state["phase"][-1], "vec": bool(np.size(f_new) > 1)}
         state.setdefault("ei", []).append(rec)
